@@ -31,6 +31,8 @@ def guarded(sx, entry, allowed, fn, *args, **kw):
         return 'ok', fn(*args, **kw)
     except allowed as e:
         return 'exc', type(e).__name__
+    except RecursionError:
+        sx.check(False, "unbounded-recursion:" + entry)
     except Exception as e:
         label = exc_label(e)
         if label.endswith("@?"):
@@ -100,10 +102,7 @@ def pdu_agf_nested(sx, depth, inner_len):
         frame = sx.mkbytes(nested_agf(depth, sx.bytes("inner", inner_len)), False)
     else:
         frame = bytes(bytearray(nested_agf(depth, [0] * inner_len)))
-    try:
-        r = decode_and_show(sx, frame, "pdu.decode:nested-agf")
-    except RecursionError:
-        sx.check(False, "unbounded-recursion:pdu.decode:nested-agf")
+    r = decode_and_show(sx, frame, "pdu.decode:nested-agf")
     sx.reach("pdu:nested-agf-decoded" if r != "DecodeError" else "pdu:nested-agf-rejected")
     return [r, len(frame)]
 
@@ -219,8 +218,17 @@ def tt3_rw(sx, code, nserv, nblk, tail):
     symbolic service codes, a block count byte, nblk symbolic block list
     bytes and `tail` symbolic bytes of data"""
     sim, emu = tt3_emulation(sx)
+    # the block count and the first byte of a block list element become list
+    # extents / list indices in the emulation: boundary sets; all else symbolic
+    nblocks = sx.pick("nblocks", [0, 1, 2, 3, 15, 16, 255])
+    bl = list(sx.bytes("bl", nblk))
+    pos, i = 0, 0
+    while pos < nblk:
+        bl[pos] = sx.pick("bl0.%d" % i, [0x80, 0x00, 0x81, 0x01, 0x8F])
+        pos += 2 if bl[pos] >= 128 else 3
+        i += 1
     body = [code] + IDM + [nserv] + list(sx.bytes("sc", 2 * nserv)) + \
-        [sx.byte("nblocks")] + list(sx.bytes("bl", nblk)) + list(sx.bytes("data", tail))
+        [nblocks] + bl + list(sx.bytes("data", tail))
     cmd = sx.mkbytes([len(body) + 1] + body, True)
     entry = "tt3.process_command"
     st, rsp = guarded(sx, entry, (), emu.process_command, cmd)
